@@ -527,6 +527,33 @@ Definition judge_resolve (st : state) (target : Z) (off : option Z) (out : val) 
   end
   end.
 
+(** A zone with one transition (offset [a] before instant [t], [b] from then on): the property's
+    soundness clause only - a successful result is a date-time OF THAT ZONE (its offset is the zone's
+    offset at its instant) that agrees with every supplied field, the offset and the timestamp
+    included; a failure is never contradicted here (no completeness claim for such zones). *)
+Definition judge_zone (st : state) (t a b : Z) (out : val) : verdict :=
+  match out with
+  | VPanic => JBad B"panic"
+  | VTimeout => JBad B"timeout"
+  | VTup [VInt y; VInt o; VInt s; VInt f; VInt offv] =>
+      match dec_date_out y o with
+      | Some dn =>
+        if time_ok_zone s f offv then
+          let u := (dn, s, f) in
+          let inst := unix_secs dn s in
+          let zone_ok := if offv =? (if inst <? t then a else b) then JOk
+                         else JBad B"result-offset-is-not-the-zone's-offset-at-that-instant" in
+          let off_sound := match getf st 20 with
+                           | Some x => if x =? offv then JOk else JBad (field_name 20)
+                           | None => JOk end in
+          vand zone_ok (vand (sound_fields st (ndtv_fields (utc_to_local u offv))) (vand (sound_ts st u) off_sound))
+        else JBad B"result-is-not-a-date-time"
+      | None => JBad B"result-is-not-a-date-time"
+      end
+  | VTup _ => JBad B"malformed-output"
+  | _ => JOk
+  end.
+
 (** * Case level *)
 Definition target_off (rest : list val) : option (option Z) :=
   match rest with [] => Some None | [VInt o] => Some (Some o) | _ => None end.
@@ -649,6 +676,15 @@ Definition judge (op : bytes) (args : list val) (out : val) : verdict :=
             end
         | _ => JBad B"malformed-output"
         end
+      | None => JSkip
+      end
+    | _ => JSkip
+    end
+  else if op_is op "pz.zone" then
+    match args with
+    | [VTup l; VInt t; VInt a; VInt b] =>
+      match dec_state l with
+      | Some st => if raw_ok st 0 && offset_valid a && offset_valid b && in_i64 t then judge_zone st t a b out else JSkip
       | None => JSkip
       end
     | _ => JSkip
